@@ -5,7 +5,8 @@ use std::io::{self, Write};
 
 use self::{number::write_number, ty::write_type};
 use super::{
-    write_delimiter, write_description_field, write_key, write_other_fields, write_separator,
+    write_delimiter, write_description_field, write_idx_field, write_key, write_other_fields,
+    write_separator,
 };
 use crate::header::record::value::{
     Map,
@@ -23,6 +24,7 @@ where
     write_type_field(writer, info.ty())?;
     write_description_field(writer, info.description())?;
     write_other_fields(writer, info.other_fields())?;
+    write_idx_field(writer, info.idx())?;
     Ok(())
 }
 
